@@ -89,29 +89,6 @@ func NewCtx(check, tier string, seed int64, shard, nshards int, only, outDir str
 	return c
 }
 
-// StartCaseWatchdog starts the bounded-progress monitor of a child whose property promises termination: when one case
-// has been in flight for longer than limit (generous: orders of magnitude above a normal case), the goroutine stacks are
-// dumped, "HANG <case>" is written to the progress log and the process exits with status 3. The driver attributes it.
-func (c *Ctx) StartCaseWatchdog(limit time.Duration) {
-	go func() {
-		for {
-			time.Sleep(2 * time.Second)
-			c.mu.Lock()
-			t0, id := c.caseT0, c.curCase
-			c.mu.Unlock()
-			if !t0.IsZero() && time.Since(t0) > limit {
-				if c.progress != nil {
-					fmt.Fprintf(c.progress, "HANG %s after %s\n", id, time.Since(t0).Round(time.Second))
-				}
-				buf := make([]byte, 1<<20)
-				n := runtime.Stack(buf, true)
-				fmt.Fprintf(os.Stderr, "CASE-WATCHDOG: case %q in flight for %s\n%s\n", id, time.Since(t0).Round(time.Second), buf[:n])
-				os.Exit(3)
-			}
-		}
-	}()
-}
-
 // Thorough reports whether the tier is "thorough".
 func (c *Ctx) Thorough() bool { return c.Tier == "thorough" }
 
